@@ -278,8 +278,16 @@ func (f *fwd) sendOne(i int) {
 		ri.kind, ri.idem = "prepare", true
 		ri.specs = f.script(tok, c.Version)
 		var mod func(*frame.Frame)
-		if f.p.TracedPrepares && ch.Choose("traceprep", 3) == 2 {
-			mod = func(fr *frame.Frame) { fr.RequestTracingId(true) } // the node answers with a tracing id
+		if f.p.TracedPrepares {
+			switch tp := ch.Choose("traceprep", 4); {
+			case tp == 2:
+				mod = func(fr *frame.Frame) { fr.RequestTracingId(true) } // the node answers with a tracing id
+			case tp == 3 && c.Version >= primitive.ProtocolVersion4:
+				// a custom payload in front of the PREPARE body (whatever the proxy keeps of the
+				// frame for later re-preparation has to stay a well-formed PREPARE)
+				mod = func(fr *frame.Frame) { fr.SetCustomPayload(map[string][]byte{"app": []byte("prepare-payload")}) }
+				f.w.Stat("probe.prepare_with_custom_payload")
+			}
 		}
 		ri.req = c.Send("prepare", tok, &message.Prepare{Query: st.Text}, mod)
 		ri.prep = &prepInfo{stmt: st, by: c, token: tok}
